@@ -80,6 +80,34 @@ func (workingMem *WorkingMemory) MakeCatalog(cat *Catalog) {
 			cat.MemoryExpressionAtomVariableMap[key.AstID][i] = j.AstID
 		}
 	}
+
+	// Nodes that only removed rule entries refer to are not catalogued, drop the references to them.
+	catalogued := func(ids []string) []string {
+		kept := make([]string, 0, len(ids))
+		for _, id := range ids {
+			if _, ok := cat.Data[id]; ok {
+				kept = append(kept, id)
+			}
+		}
+
+		return kept
+	}
+	for _, snapshotMap := range []map[string]string{cat.MemoryExpressionSnapshotMap, cat.MemoryExpressionAtomSnapshotMap, cat.MemoryVariableSnapshotMap} {
+		for key, id := range snapshotMap {
+			if len(catalogued([]string{id})) == 0 {
+				delete(snapshotMap, key)
+			}
+		}
+	}
+	for _, variableMap := range []map[string][]string{cat.MemoryExpressionVariableMap, cat.MemoryExpressionAtomVariableMap} {
+		for id, ids := range variableMap {
+			if len(catalogued([]string{id})) == 0 {
+				delete(variableMap, id)
+			} else {
+				variableMap[id] = catalogued(ids)
+			}
+		}
+	}
 }
 
 // DebugContent will shows the working memory mapping content
